@@ -473,3 +473,34 @@ M("C14", "emu-sv filter default tolerance widened", "kill",
   [(SVI, "        tolerance: float = 1e-10,\n", "        tolerance: float = 1e-6,\n")], "ONCE-tolerance")
 M("C14", "twin: tighter explicit filter tolerance", "twin",
   [(IMPL, "            if self._is_evaluation_time(callback, fractional_time)\n", "            if self._is_evaluation_time(callback, fractional_time, 1e-11)\n")])
+
+# ---------------------------------------------------------------- survivors of the generic sweep over the untested driver layer
+M("C04", "noisy sequences get the noiseless driver", "kill", [(IMPL, "    if data.lindblad_ops:\n        return NoisyMPSBackendImpl", "    if not data.lindblad_ops:\n        return NoisyMPSBackendImpl")], "DISPATCH-impl")
+M("C03", "permute_atom_order does not store the result", "kill", [(IMPL, "    results.atom_order = tuple(at_ord)\n", "    pass\n")], "PERM-results")
+M("C03", "tag helper requires both equality and prefix", "kill",
+  [(IMPL, "if tag == base_tag or tag.startswith(base_tag + \"_\")", "if tag == base_tag and tag.startswith(base_tag + \"_\")")], "TAGKEY")
+M("C13", "observables get the state multiplied by its norm", "kill",
+  [(IMPL, "        normalized_state = 1 / self.state.norm() * self.state", "        normalized_state = 1 * self.state.norm() * self.state")], "OBSDEF-norm")
+M("C02", "progress calls the right-to-left update while sweeping right", "kill",
+  [(IMPL, "        if self._swipe_direction is SwipeDirection.LEFT_TO_RIGHT:\n            self._left_to_right_update_tdvp", "        if self._swipe_direction is not SwipeDirection.LEFT_TO_RIGHT:\n            self._left_to_right_update_tdvp")], "TDVP-dispatch")
+M("C27", "progress never offers an autosave", "kill", [(IMPL, "            self._right_to_left_update_tdvp(delta_time=delta_time)\n\n        self.save_simulation()", "            self._right_to_left_update_tdvp(delta_time=delta_time)\n")], "SAVE-offered")
+M("C25", "init skips the dark-qubit filter", "kill", [(IMPL, "    def init(self) -> None:\n        self.init_dark_qubits()\n", "    def init(self) -> None:\n")], "DARK-mps")
+M("C18", "norm gap computed with the wrong sign", "kill",
+  [(IMPL, "        previous_norm_gap_before_jump = self.norm_gap_before_jump\n        self.norm_gap_before_jump = self.state.norm().item() ** 2 - self.jump_threshold",
+    "        previous_norm_gap_before_jump = self.norm_gap_before_jump\n        self.norm_gap_before_jump = self.state.norm().item() ** 2 + self.jump_threshold")], "JUMP-gap")
+M("C17", "norm gap from the norm instead of its square", "kill",
+  [(IMPL, "        self.norm_gap_before_jump = self.state.norm().item() ** 2 - self.jump_threshold\n        self.root_finder.provide_ordinate",
+    "        self.norm_gap_before_jump = self.state.norm().item() - self.jump_threshold\n        self.root_finder.provide_ordinate")], "JUMP-gap")
+M("C27", "autosave file written without the pickle", "kill", [(IMPL, "            pickle.dump(self, file_handle)\n", "            pass\n")], "SAVE-content")
+M("C27", "autosave throttle inverted", "kill",
+  [(IMPL, "        if self.last_save_time > time.time() - self.config.autosave_dt:", "        if self.last_save_time < time.time() - self.config.autosave_dt:")], "SAVE-content")
+M("C14", "evaluation filter requires own and default times", "kill",
+  [(IMPL, "        return is_observable_eval_time or is_default_eval_time\n\n    def fill_results", "        return is_observable_eval_time and is_default_eval_time\n\n    def fill_results")], "ONCE-filter")
+M("C09", "convergence on the sum of the energies", "kill",
+  [(IMPL, "        return abs(self.current_energy - self.previous_energy) < energy_tolerance", "        return abs(self.current_energy + self.previous_energy) < energy_tolerance")], "CONV-gate")
+M("C09", "unconverged sweep forgets its energy", "kill",
+  [(IMPL, "            # not converged for the current sweep. restart\n            self.previous_energy = self.current_energy", "            # not converged for the current sweep. restart\n            pass")], "CONV-gate")
+M("C02", "right-to-left sweep moves at site 0", "kill", [(IMPL, "        if self._sweep_index > 0:\n            self.right_baths.append(", "        if self._sweep_index >= 0:\n            self.right_baths.append(")], "TDVP-boundary")
+M("C09", "DMRG left-to-right moves past the last pair", "kill", [(IMPL, "        if idx < self.qubit_count - 2:\n            self.left_baths.append(", "        if idx <= self.qubit_count - 2:\n            self.left_baths.append(")], "TDVP-boundary")
+M("C10", "DMRG reverses one site early", "kill", [(IMPL, "        if self._sweep_index == self.qubit_count - 2:\n            self._swipe_direction", "        if self._sweep_index == self.qubit_count - 3:\n            self._swipe_direction")], "TDVP-boundary")
+M("C02", "twin: boundary written from the other side", "twin", [(IMPL, "        if self._sweep_index > 0:\n            self.right_baths.append(", "        if 0 < self._sweep_index:\n            self.right_baths.append(")])
